@@ -332,7 +332,8 @@ PROPS['C12']['contracts'] = PROPS['C12']['contracts'] + BASE[1:]
 # SET OF / SEQUENCE OF ANY: wrapping is decided per element (C18-m8b)
 for _p in ('C18', 'C01'):
     PROPS[_p]['contracts'] = PROPS[_p]['contracts'] + [(E, 'ber.encoder::SequenceOfEncoder._encodeComponents[value-object,any-size,wrap-type]'),
-                                                       (E, 'ber.encoder::_isValueOf')]
+                                                       (E, 'ber.encoder::_isValueOf'),
+                                                       (E, 'ber.encoder::SequenceEncoder.encodeValue[value-object,any-size,open-types]')]
 # BitString * n (fix 3affd96): n copies of the bits, n times the length
 for _p in ('C14', 'C19'):
     PROPS[_p]['contracts'] = PROPS[_p]['contracts'] + [('contracts.univ_bits', 'type.univ::BitString.%s' % _op) for _op in (
